@@ -10,7 +10,7 @@ if ! git apply --3way "$patch" 2>/dev/null && ! git apply "$patch"; then echo "p
 git reset -q 2>/dev/null
 for p in "$@"; do
   out=$(cd "$ROOT" && ./check "$p" "$tier" 2>"$ROOT/build/try_patch.err"); code=$?
-  kinds=$(grep -o "violation \[[a-z0-9-]*\]" "$ROOT/build/try_patch.err" | sort | uniq -c | sort -rn | head -4 | tr '\n' ';')
+  kinds=$(grep -o "violation \[[a-z0-9:-]*\]" "$ROOT/build/try_patch.err" | sort | uniq -c | sort -rn | head -4 | tr '\n' ';')
   echo "$p exit=$code $(echo "$out" | grep -c '^VIOLATION') VIOLATION lines; $kinds $(grep -m1 'MACHINERY' "$ROOT/build/try_patch.err")"
 done
 git -C "$REPO" checkout -- . ; git -C "$REPO" status --short | head -3
